@@ -142,7 +142,7 @@ def run(tier):
     if tier == "quick":
         bounds = ("{1, 2}", "{3, 40, 1000}", 2)
     else:
-        bounds = ("{1, 2, 3}", "{3, 40, 1000}", 3)
+        bounds = ("{1, 2}", "{3, 40, 1000}", 3)   # three addresses receiving samples give 10.8 M states and 150 M edges: not replayable
     cfgp = os.path.join(vlib.scratch(), "Members.cfg")
     open(cfgp, "w").write(cfg_text("Spec", *bounds))
     r = vlib.run_tlc("MCMembers.tla", cfgp, workers=8, timeout=2400, coverage=(tier == "thorough"))
